@@ -288,6 +288,86 @@ func HarnessC11Panic() {
 	verifReach("end")
 }
 
+// HarnessC11Composition: the panicking format check sits in the j-th of three sub-schemas of every
+// applicator (oneOf, anyOf, allOf, not, properties, patternProperties, additionalProperties, items,
+// tuple items, additionalItems, dependencies), so that the panic passes through a validator that
+// still holds children which ran before it and children which have not run yet.
+func HarnessC11Composition() {
+	k := 1 + verifChoose(2)
+	reg := &verifRegistry{panicAt: k}
+	date := strSchema("date", -1)
+	mail := strSchema("email", -1)
+	plain := strSchema("", 1)
+	var subs []spec.Schema
+	switch verifChoose(3) {
+	case 0:
+		subs = []spec.Schema{date, plain, mail}
+	case 1:
+		subs = []spec.Schema{plain, date, mail}
+	default:
+		subs = []spec.Schema{plain, schemaOfType("number"), date}
+	}
+	s := spec.Schema{}
+	var d interface{} = "2020-01-01"
+	switch verifChoose(11) {
+	case 0:
+		s.OneOf = subs
+	case 1:
+		s.AnyOf = subs
+	case 2:
+		s.AllOf = subs
+	case 3:
+		inner := spec.Schema{}
+		inner.OneOf = subs
+		s.Not = &inner
+	case 4:
+		s.Properties = map[string]spec.Schema{"a": subs[0], "b": subs[1], "c": subs[2]}
+		d = map[string]interface{}{"a": "x", "b": "y", "c": "z"}
+	case 5:
+		s.PatternProperties = map[string]spec.Schema{"^a": subs[0], "b$": subs[1], "c": subs[2]}
+		d = map[string]interface{}{"abc": "x", "cb": "y"}
+	case 6:
+		s.Properties = map[string]spec.Schema{"a": subs[1]}
+		s.AdditionalProperties = &spec.SchemaOrBool{Allows: true, Schema: &subs[2]}
+		d = map[string]interface{}{"a": "x", "b": "y", "c": "z"}
+	case 7:
+		s.Items = &spec.SchemaOrArray{Schema: &subs[2]}
+		d = []interface{}{"x", "y", "z"}
+	case 8:
+		s.Items = &spec.SchemaOrArray{Schemas: subs}
+		d = []interface{}{"x", "y", "z"}
+	case 9:
+		s.Items = &spec.SchemaOrArray{Schemas: subs[:1]}
+		s.AdditionalItems = &spec.SchemaOrBool{Allows: true, Schema: &subs[2]}
+		d = []interface{}{"x", "y", "z"}
+	default:
+		dep := spec.Schema{}
+		dep.Properties = map[string]spec.Schema{"b": subs[2]}
+		s.Dependencies = spec.Dependencies{"a": spec.SchemaOrStringArray{Schema: &dep}}
+		s.AllOf = subs[:2]
+		d = map[string]interface{}{"a": "x", "b": "y"}
+	}
+	recycle := verifBool()
+	first := guarded(func() verifOutcome {
+		if recycle {
+			return outcomeOfError(AgainstSchema(&s, d, reg))
+		}
+		return outcomeOfResult(NewSchemaValidator(&s, nil, "", reg).Validate(d))
+	})
+	verifObserve("panicked", first.panicked)
+	// later validation: a three-member composition (borrows four schema validators at once)
+	s2 := spec.Schema{}
+	s2.AllOf = []spec.Schema{plain, strSchema("", 2), strSchema("", 3)}
+	d2 := []interface{}{"abc", "ab", 1.0}[verifChoose(3)]
+	reg2 := &verifRegistry{}
+	got := guarded(func() verifOutcome { return outcomeOfError(AgainstSchema(&s2, d2, reg2)) })
+	fresh := runFresh(&s2, d2, reg2)
+	verifAssert(!got.panicked, "later-validation-returns-normally")
+	verifAssert(verifIff(got.valid, fresh.valid), "later-validation-verdict-equals-fresh")
+	verifAssert(verifSameSet(got.errs, fresh.errs), "later-validation-errors-equal-fresh")
+	verifReach("end")
+}
+
 // HarnessC12ReadOnly: validation never writes to the instance nor to a reference-free schema.
 func HarnessC12ReadOnly() {
 	s, d := genMixedPair()
